@@ -38,11 +38,15 @@ where
         let mut s = 0;
         while s < 4 {
             let op = nd::u8_();
-            nd::assume(op < 3);
+            nd::assume(op < 4);
             if op == 0 {
                 check(d.next(), m.next(), is_row, c, idx);
             } else if op == 1 {
                 check(d.next_back(), m.next_back(), is_row, c, idx);
+            } else if op == 2 {
+                // nth(n) on a drain removes (and must drop) the n skipped elements as well
+                let n = nd::upto(line + 1);
+                check(d.nth(n), m.nth(n), is_row, c, idx);
             }
             assert!(d.len() == m.len(), "ORACLE: drain len() differs from the ideal sequence");
             let (lo, hi) = d.size_hint();
